@@ -324,12 +324,16 @@ func runClientOp(c *cache.Cache, o clientOp) (s string) {
 }
 
 func doConc(req *request) (resp response) {
-	ctlReset(nil)
 	results := make([][]string, len(req.Clients))
 	var fns []func()
+	caches := make([]*cache.Cache, len(req.Clients))
+	for i := range req.Clients {
+		caches[i] = openCache() // each client its own Cache value, as separate users of one directory
+	}
+	ctlReset(nil) // the operations of cache.Open are not part of the schedule
 	for i, ops := range req.Clients {
 		i, ops := i, ops
-		c := openCache() // each client its own Cache value, as separate users of one directory
+		c := caches[i]
 		fns = append(fns, func() {
 			for _, o := range ops {
 				results[i] = append(results[i], runClientOp(c, o))
